@@ -61,6 +61,22 @@ def decoding(ctx, fd):
                    "several units is decoded into a single tour", loc=uses[0][1].line())
     else:
         ctx.undecided(o, "uses of the flow amount not recognised: %s" % sorted(kinds))
+    o = ctx.ob("R4.decoding-accumulates-tours-per-node", "T12", SFVT,
+               "the tours ending at a node are accumulated (entry/or_default/push), never overwritten by a fresh list")
+    bad = []
+    n_entries = 0
+    for k in ctx.prog.family(SFVT):
+        f2 = ctx.fd(k)
+        for c in f2.body.calls():
+            nm = c.callee or ""
+            if nm.endswith("HashMap::insert") and len(c.args) == 3 and any("Vec<usize>" in t for t in c.targs):
+                bad.append(c)
+            if nm.endswith("HashMap::entry") and any("Vec<usize>" in t for t in c.targs):
+                n_entries += 1
+    ctx.decide(o, n_entries >= 2 and not bad, "%d entry() updates, no overwriting insert" % n_entries,
+               "HashMap::insert at %s overwrites the list of tours ending at a node: when several coupled vehicles arrive at the same activity all but "
+               "one tour are forgotten and the later pop().unwrap() panics" % bad[0].line() if bad else "entry() updates not found",
+               loc=bad[0].line() if bad else None)
     must_depend(ctx, "R4.decoding-order", "T1", SFVT, "ret", [call(N("nodes_of_vehicle_type_sorted_by_start")), call(N("get_start_depot_node"))],
                 "tours are decoded in chronological order of the type's nodes and start at the start-depot node of the depot edge")
 
@@ -75,6 +91,24 @@ def rules(ctx):
     flownet.need(ctx, "R1.connection-cost", edges, "connection", "cost",
                  [call(N("dead_head_time_between")), field(COSTS, "dead_head_trip"), call(N("idle_time_between")), field(COSTS, "idle")],
                  "connection arcs cost dead-head time and idle time at their rates")
+    o, e = flownet.role(ctx, "R1.connection-cost-direction", edges, "connection",
+                        "dead-head and idle time of a connection arc are taken from the predecessor to the head node")
+    if e is not None and fd is not None:
+        bad = []
+        seen = 0
+        cs = fd.slice_operand_pure(e.instr, e.fields["cost"][0])
+        for d in cs["defs"]:
+            c = d.instr
+            if c is not None and c.kind == "call" and c.callee in (N("dead_head_time_between"), N("idle_time_between")):
+                seen += 1
+                a1 = fd.slice_operand_pure(c, c.args[1])["atoms"]
+                a2 = fd.slice_operand_pure(c, c.args[2])["atoms"]
+                p1, p2 = call(N("predecessors")) in a1, call(N("predecessors")) in a2
+                if p2 and not p1:
+                    bad.append(c)
+        ctx.decide(o, seen >= 2 and not bad, "%d calls, predecessor first" % seen,
+                   "%s at %s is asked for the reverse direction (head node first)" % ((bad[0].callee or "").split("::")[-1], bad[0].line()) if bad
+                   else "cost calls not found", loc=bad[0].line() if bad else None)
     flownet.need(ctx, "R1.trip-cost", edges, "trip", "cost", [call(ND("duration")), field(COSTS, "service_trip")],
                  "trip arcs cost their duration at the service rate")
     flownet.need(ctx, "R1.maintenance-cost", edges, "maintenance", "cost", [call(ND("duration")), field(COSTS, "maintenance")],
